@@ -189,7 +189,36 @@ def run(r):
                 "the proved bound is depth <= limit, so stack <= overhead + limit x max(bytes per depth unit).",
         "two_MiB": TWO_MIB, "profiles": report,
     }
+    r.extra["lean_snapshot_check"] = snapshot_check(report)
     r.exhaustive = False
+
+
+SNAP_KEYS = {"macroCall": ["M:M000", "M:A000"], "callerCall": ["M:C000"], "includeTpl": ["T:I000", "T:P000"],
+             "blockCall": ["B:B000", "B:V000", "B:R000"], "superCall": ["S:super()", "B:S000"]}
+
+
+def snapshot_check(report):
+    """compare the frame-size snapshots quoted in MJ/Props/C11.lean (parameters of the stack
+    theorems' instances) with this run's measurements; informational"""
+    src = open(os.path.join(common.LEAN, "MJ", "Props", "C11.lean")).read()
+    out = {}
+    for lean_name, profile, lower in (("measuredDebugO0", "debugO0", ("blockCall", "superCall")), ("measuredRelease", "release", ())):
+        m = re.search(r"def %s : Kind → Nat\n((?:  \| \.\w+ => \d+\n)+)" % lean_name, src)
+        if not m or profile not in report:
+            continue
+        snap = {k: int(v) for k, v in re.findall(r"\| \.(\w+) => (\d+)", m.group(1))}
+        pure = report[profile]["per_pure_cycle"]
+        rows = {}
+        for kind, val in snap.items():
+            ms = [pure[k]["bytes_per_level"] for k in SNAP_KEYS.get(kind, []) if k in pure]
+            if not ms:
+                continue
+            if kind in lower:
+                rows[kind] = {"snapshot_lower_bound": val, "measured_min": min(ms), "holds": min(ms) >= val}
+            else:
+                rows[kind] = {"snapshot_upper_bound": val, "measured_max": max(ms), "holds": max(ms) <= val}
+        out[lean_name] = rows
+    return out
 
 
 def replay(r, path):
